@@ -752,3 +752,64 @@ lemma pre-image-entry-hands-back-the-recorded-account
 // two removed accounts with the same storage root: reverting the second removal also unschedules the first; pruning only.
 // No lemma: map types are not available as lemma variables.)
 @*/
+
+/*@
+// ---- C09 (agent Q): AccountsDB forwards prune / cancel-prune requests under its operation mutex --------------------------
+// The pruning manager is an interface here; its effect on the waiting list / trie database is specified (on its own ghost
+// model) in data/state/storagePruningManager/contracts_verif.go. In THIS package a request is observed through ghost cells:
+//   spmReq(s, 0)[0] number of requests received, spmReq(s, 1)[0] kind of the last one (1 = prune, 2 = cancel prune),
+//   spmReq(s, 2)[0] its identifier byte, spmReqRoot(s)[0] its root hash, spmReqStore(s)[0] the storage manager it was given.
+spec fn spmReq(s StoragePruningManager, f int) []int
+  axiom spmReqFld(base(spmReq(s, f))) == f
+spec fn spmReqFld(r ref) int
+spec fn spmReqRoot(s StoragePruningManager) []string
+spec fn spmReqStore(s StoragePruningManager) []data.StorageManager
+spec fn storageOf(tr data.Trie) data.StorageManager
+
+struct AccountsDB
+  guarded_by mutOp: mainTrie, storagePruningManager
+
+func (tr data.Trie) GetStorageManager() (r data.StorageManager)
+  ensures r == storageOf(tr)
+  assigns nothing
+
+func (s StoragePruningManager) PruneTrie(rootHash []byte, identifier data.TriePruningIdentifier, tsm data.StorageManager)
+  ensures received: spmReq(s, 0)[0] == old(spmReq(s, 0)[0]) + 1 && spmReq(s, 1)[0] == 1 && spmReq(s, 2)[0] == identifier && spmReqRoot(s)[0] == old(str(rootHash)) && spmReqStore(s)[0] == tsm
+  assigns elems(spmReq(s, 0)), elems(spmReq(s, 1)), elems(spmReq(s, 2)), elems(spmReqRoot(s)), elems(spmReqStore(s))
+
+func (s StoragePruningManager) CancelPrune(rootHash []byte, identifier data.TriePruningIdentifier, tsm data.StorageManager)
+  ensures received: spmReq(s, 0)[0] == old(spmReq(s, 0)[0]) + 1 && spmReq(s, 1)[0] == 2 && spmReq(s, 2)[0] == identifier && spmReqRoot(s)[0] == old(str(rootHash)) && spmReqStore(s)[0] == tsm
+  assigns elems(spmReq(s, 0)), elems(spmReq(s, 1)), elems(spmReq(s, 2)), elems(spmReqRoot(s)), elems(spmReqStore(s))
+
+func (adb *AccountsDB) PruneTrie(rootHash []byte, identifier data.TriePruningIdentifier)
+  requires collaborators-set: adb.mainTrie != nil && adb.storagePruningManager != nil
+  ensures  one-prune-request-forwarded: spmReq(adb.storagePruningManager, 0)[0] == old(spmReq(adb.storagePruningManager, 0)[0]) + 1 && spmReq(adb.storagePruningManager, 1)[0] == 1
+  ensures  same-root-and-identifier: spmReq(adb.storagePruningManager, 2)[0] == identifier && spmReqRoot(adb.storagePruningManager)[0] == old(str(rootHash))
+  ensures  on-the-main-trie-storage: spmReqStore(adb.storagePruningManager)[0] == storageOf(adb.mainTrie)
+  assigns  elems(spmReq(adb.storagePruningManager, 0)), elems(spmReq(adb.storagePruningManager, 1)), elems(spmReq(adb.storagePruningManager, 2)), elems(spmReqRoot(adb.storagePruningManager)), elems(spmReqStore(adb.storagePruningManager))
+
+func (adb *AccountsDB) CancelPrune(rootHash []byte, identifier data.TriePruningIdentifier)
+  requires collaborators-set: adb.mainTrie != nil && adb.storagePruningManager != nil
+  ensures  one-cancel-request-forwarded: spmReq(adb.storagePruningManager, 0)[0] == old(spmReq(adb.storagePruningManager, 0)[0]) + 1 && spmReq(adb.storagePruningManager, 1)[0] == 2
+  ensures  same-root-and-identifier: spmReq(adb.storagePruningManager, 2)[0] == identifier && spmReqRoot(adb.storagePruningManager)[0] == old(str(rootHash))
+  ensures  on-the-main-trie-storage: spmReqStore(adb.storagePruningManager)[0] == storageOf(adb.mainTrie)
+  assigns  elems(spmReq(adb.storagePruningManager, 0)), elems(spmReq(adb.storagePruningManager, 1)), elems(spmReq(adb.storagePruningManager, 2)), elems(spmReqRoot(adb.storagePruningManager)), elems(spmReqStore(adb.storagePruningManager))
+@*/
+
+/*@
+// ---- C10 (agent Q): a state snapshot / checkpoint blocks pruning BEFORE the traversal goroutine is started ---------------------
+// The traversal itself (goroutine, channel of leaves, snapshotUserAccountDataTrie) is outside the engine's subset; what is
+// checked here is the part on the caller's thread: operation mutex held, storage manager taken from the main trie, pruning
+// blocked (EnterPruningBufferingMode) before `go`. The heap is havoc'd at `go`, so nothing is claimed about the state afterwards.
+func (sm data.StorageManager) EnterPruningBufferingMode()
+  assigns nothing
+
+func (adb *AccountsDB) SnapshotState(rootHash []byte)
+  havoc_at go
+  requires collaborators-set: adb.mainTrie != nil && storageOf(adb.mainTrie) != nil
+
+func (adb *AccountsDB) setStateCheckpoint(rootHash []byte)
+  havoc_at go
+  requires collaborators-set: adb.mainTrie != nil && storageOf(adb.mainTrie) != nil
+  holds    mutOp
+@*/
